@@ -747,7 +747,7 @@ fn main() {
     let args = hc::parse_args();
     let mut rng = Rng::new(args.seed);
     let mut sink = Sink::new(&args);
-    let (n_batches, n_set, n_pm, n_rt, n_chain_rt) = if args.thorough { (320, 60, 200, 800, 3) } else { (14, 6, 10, 40, 1) };
+    let (n_batches, n_set, n_pm, n_rt, n_chain_rt) = if args.thorough { (160, 40, 120, 400, 2) } else { (14, 6, 10, 40, 1) };
 
     // ---- 1. certificate batches: single-field flips ----
     for _ in 0..n_batches {
